@@ -327,6 +327,9 @@ def run_sched_case(case, twin, repo):
             perturb(pert)
             # option lists are built by the harness OUTSIDE the profiled constructor call
             params = dict(case["params"], _built=build_options(space, case["params"].get("opts")))
+            caller_list = params["_built"][0]
+            caller_before = None if caller_list is None else json.dumps(canon(caller_list))
+            caller_len = None if caller_list is None else len(caller_list)
             NO_CLOCK[0] = bool(case.get("no_clock"))   # no TimeKeeper passed: the scheduler falls back to real time
             try:
                 # unrelated instances of the same class with explicit NON-default nested options, sharing the
@@ -335,14 +338,10 @@ def run_sched_case(case, twin, repo):
                 def pollute():
                     for pk, pp in case.get("polluters") or []:
                         try:
-                            # shared with the scheduler under test: the configuration-space object and the
-                            # points_to_evaluate list object.  NOT shared: the restrict_configurations list -- the
-                            # searchers keep and shrink the caller's list in place (searcher_base.py: .pop(pos)),
-                            # so two schedulers given ONE list object do interfere; reported as an observation,
-                            # not judged here
-                            r0, p0 = params["_built"]
-                            q = dict(pp, _built=(None if r0 is None else [dict(c) for c in r0], p0)) \
-                                if pp.get("share_opts") else dict(pp)
+                            # shared with the scheduler under test (SAME objects): the configuration space, the
+                            # points_to_evaluate list and the restrict_configurations list (finding F-C11-1: a
+                            # searcher must not keep and shrink the caller's list)
+                            q = dict(pp, _built=params["_built"]) if pp.get("share_opts") else dict(pp)
                             o = make_scheduler(pk, space, q, pert.randrange(2 ** 31))
                             others.append([o, 1000])
                         except Exception:
@@ -420,6 +419,14 @@ def run_sched_case(case, twin, repo):
     except Exception as e:   # both twins must fail alike
         err = "%s: %s" % (type(e).__name__, str(e)[:200])
     out = dict(trace=trace, error=err, consumed=rec.consumed)
+    try:
+        # the caller's restrict_configurations list must be unchanged (length and content)
+        if caller_list is not None:
+            out["shared_restrict"] = any(pp.get("share_opts") for _, pp in case.get("polluters") or [])
+            if json.dumps(canon(caller_list)) != caller_before:
+                out["caller_list_changed"] = [caller_len, len(caller_list)]
+    except NameError:
+        pass
     if prof:
         out["executed"] = sorted(prof.seen)
         out["hit_lines"] = sorted(prof.hit_lines)
